@@ -173,3 +173,52 @@ def peercred_fault_phase(ctx, label="pcfault"):
         probs.append({"why": "after the identity-lookup faults: " + c})
     rc, rep = d.stop()
     return probs, rep, n
+
+
+def _mac_client(args):
+    sock, key, mac, t_end, min_rounds = args
+    ml = {2: 16, 3: 20, 4: 20, 5: 32, 6: 64}[mac]
+    bad, r = [], 0
+    while (r < min_rounds or time.time() < t_end) and len(bad) <= 2:
+        r += 1
+        payload = b"mac %d round %d" % (mac, r)
+        e, st = rig.encode(sock, cipher=0, mac=mac, zip_=0, data=payload)
+        if e is None or e["error_num"] != 0:
+            bad.append({"why": "encode with mac %d failed: %s %s" % (mac, st, e and e["error_str"]), "mac": mac})
+            continue
+        body = hostile.unarmor(e["data"])
+        outer, tag, inner = body[:5], body[5:5 + ml], body[5 + ml:]
+        if outer[2] != mac or pyref.tag(key, mac, outer + inner) != tag:
+            bad.append({"why": "credential emitted for mac %d while other clients use other MAC types: the MAC field is not "
+                               "HMAC-%s(SHA1(key||'2'), outer||inner) (header says mac %d)" % (mac, pyref.MAC_ALG[mac], outer[2]),
+                        "mac": mac, "cred_hex": e["data"].hex()})
+        # the other direction: a conforming credential built by the reference must be accepted
+        c = pyref.mint(key, mac=mac, time0=int(time.time()), ttl=300, uid=77, gid=78, salt=os.urandom(8), data=payload)
+        d, st = rig.decode(sock, c)
+        if d is None or d["error_num"] != 0 or d["data"] != payload:
+            bad.append({"why": "a conforming credential (mac %d) built by the reference is rejected while other clients use other MAC "
+                               "types: %s" % (mac, d and (d["error_num"], d["error_str"])), "mac": mac, "cred_hex": c.hex()})
+    return bad, r
+
+
+def mac_race(ctx, exe, seconds=4.0, nthreads=4, label="macrace"):
+    """clients using different MAC types at the same time on a multi-threaded daemon (real clock): every credential emitted is
+    checked against the Python reference, every reference-built credential must be accepted"""
+    key = os.urandom(48)
+    d = rig.Daemon(ctx, exe, tag=label, nthreads=nthreads, key=key, clock=0)
+    if not d.start(wait=20):
+        return [{"why": "daemon (%s) does not start" % label}], "", 0
+    macs = [m for m in (2, 3, 4, 5, 6) if pyref.mac_supported(m)]
+    pool = multiprocessing.Pool(len(macs) * 2)
+    problems, total = [], 0
+    try:
+        t_end = time.time() + seconds
+        res = pool.map(_mac_client, [(d.sock, key, m, t_end, 50) for m in macs * 2])
+        for b, n in res:
+            problems += b
+            total += n
+    finally:
+        pool.terminate()
+        pool.join()
+    rc, rep = d.stop(timeout=30)
+    return problems, rep, total
